@@ -57,7 +57,10 @@ def _texts():
             a.resname = 'LIG'
             a.name4 = gen.name4('%s%d' % (el.upper(), count[el]), el)
         return gen.to_text(s_)
-    return dict(tri=tri, cut=cut, unk=unk, clu=clu, clu2=clu2, pair=pair, nterm=nterm, mpo=mpo,
+    # characters outside ASCII in columns the program does not read (a no-break space in column 21, an accented remark)
+    nonascii = 'REMARK   1 r\u00e9sum\u00e9 \u2032\n' + ''.join((ln[:20] + '\u00a0' + ln[21:]) if ln.startswith('ATOM') and k % 3 == 0 else ln
+                                                            for k, ln in enumerate(pair.splitlines(True)))
+    return dict(tri=tri, cut=cut, unk=unk, clu=clu, clu2=clu2, pair=pair, nterm=nterm, mpo=mpo, nonascii=nonascii,
                 lig_a=tri + 'TER\n' + as_lig('NMA'), lig_b=tri + 'TER\n' + as_lig('DMA'), lig_c=tri + 'TER\n' + as_lig('ACT'))
 
 
@@ -83,6 +86,7 @@ def operations(tier):
         dict(name='zip-member-1', text='tri', opts=[], via_zip=True),
         dict(name='zip-member-2', text='pair', opts=[], via_zip=True),
         dict(name='tune-returned-parameters', text='nterm', opts=[], tune_after=True),
+        dict(name='non-ascii-characters', text='nonascii', opts=[]),
     ]
     if tier == 'thorough':
         ops += [
@@ -171,15 +175,15 @@ def execute(op, mode='stream'):
     elif mode == 'stream':
         mol = pk.run(text, opts, write=True)
     elif mode == 'path':
-        with open('op_input.pdb', 'w') as fh:
+        with open('op_input.pdb', 'w', encoding='utf-8') as fh:
             fh.write(text)
         mol = propka.run.single('op_input.pdb', optargs=tuple(opts), write_pka=False)
         mol.name = 'x'
         mol._pka_text = pk.pka_text(mol)
     elif mode == 'textfile':
-        with open('op_input2.pdb', 'w') as fh:
+        with open('op_input2.pdb', 'w', encoding='utf-8') as fh:
             fh.write(text)
-        with open('op_input2.pdb', 'rt') as fh:
+        with open('op_input2.pdb', 'rt', encoding='utf-8') as fh:
             mol = propka.run.single('x.pdb', optargs=tuple(opts), stream=fh, write_pka=False)
         mol._pka_text = pk.pka_text(mol)
     rec = pk.record(mol, text=mol._pka_text)
